@@ -11,6 +11,7 @@ package main
 import (
 	"bufio"
 	"bytes"
+	"encoding/base64"
 	"encoding/hex"
 	"encoding/json"
 	"fmt"
@@ -451,10 +452,18 @@ func optTime(p *time.Time) sexp.Node {
 	return sexp.Some(zbig(nanosOf(*p)))
 }
 
+func optStr(c curArg) sexp.Node {
+	if c == nil {
+		return sexp.None()
+	}
+	return sexp.Some(sexp.Str(*c))
+}
+
 func (a argSpec) sexp() sexp.Node {
 	return sexp.T("args", sexp.T("first", optInt(a.First)), sexp.T("last", optInt(a.Last)),
 		sexp.T("after", curSexp(a.After)), sexp.T("before", curSexp(a.Before)),
-		sexp.T("from", optTime(a.From)), sexp.T("to", optTime(a.To)))
+		sexp.T("from", optTime(a.From)), sexp.T("to", optTime(a.To)),
+		sexp.T("afterraw", optStr(a.After)), sexp.T("beforeraw", optStr(a.Before)))
 }
 
 // ---------------------------------------------------------------------------------------------
@@ -542,8 +551,9 @@ func observe(resp workResp, crashed, hung bool) (obsT, sexp.Node) {
 	}
 	c := body.Data.Connection
 	o := obsT{}
-	var es, cs []sexp.Node
+	var es, cs, raws []sexp.Node
 	for _, e := range c.Edges {
+		raws = append(raws, sexp.Str(e.Cursor))
 		ed, ok := parseNode(e.Node)
 		if !ok {
 			return obsT{malformed: true}, sexp.T("malformed", sexp.Str(e.Node))
@@ -564,7 +574,8 @@ func observe(resp workResp, crashed, hung bool) (obsT, sexp.Node) {
 		info = sexp.T("info", sexp.Bool(o.hasPrev), sexp.Bool(o.hasNext), optCursorString(o.start), optCursorString(o.end))
 	}
 	o.total = c.TotalCount
-	return o, sexp.T("page", sexp.L(es...), sexp.L(cs...), info, optInt(c.TotalCount))
+	return o, sexp.T("page", sexp.L(es...), sexp.L(cs...), info, optInt(c.TotalCount),
+		sexp.T("raw", sexp.L(raws...), sexp.Str(o.start), sexp.Str(o.end)))
 }
 
 // ---------------------------------------------------------------------------------------------
@@ -898,6 +909,53 @@ func randomArgs(r *rng.R, d []edge) argSpec {
 
 var hostileCursors = []string{"", "!!!", "AAAA", "gA", "kQ", "gqROYW5vAQ", "gqROYW5v0xXlmjan9SgAoklkoA", "gqJJZKFh", "gqROYW5voWGiSWSgYQ", "wA", "zP8"}
 
+// crafted msgpack documents for DeserializeCursor's struct decoder: nil, arrays, map16 / map32,
+// keys as bin, every integer code, duplicate and unknown keys, missing fields, trailing bytes,
+// truncation, a line break inside the base64 text
+var craftedCursors = func() []string {
+	enc := func(b ...byte) string { return base64.RawURLEncoding.EncodeToString(b) }
+	nano := []byte{0xa4, 'N', 'a', 'n', 'o'}
+	id := []byte{0xa2, 'I', 'd'}
+	cat := func(parts ...[]byte) []byte {
+		var out []byte
+		for _, p := range parts {
+			out = append(out, p...)
+		}
+		return out
+	}
+	valid := cat([]byte{0x82}, nano, []byte{0xd3, 0, 0, 0, 0, 0, 0, 0, 200}, id, []byte{0xa1, 'a'})
+	vs := enc(valid...)
+	return []string{
+		enc(0xc0),                                // nil: the zero cursor
+		enc(0x80),                                // empty map
+		enc(0x90),                                // empty array
+		enc(0x91, 0xd0, 0xff),                    // [int8 -1]
+		enc(0x92, 0x64, 0xa1, 'b'),               // [100, "b"]
+		enc(0x93, 0x64, 0xa1, 'b', 0xc0),         // three elements: the third is skipped
+		enc(0xdc, 0, 2, 0xcc, 200, 0xd9, 1, 'a'), // array16, uint8, str8
+		enc(cat([]byte{0xde, 0, 2}, nano, []byte{0xcd, 1, 0x2c}, id, []byte{0xda, 0, 1, 'a'})...), // map16, uint16 300, str16
+		enc(cat([]byte{0xdf, 0, 0, 0, 2}, nano, []byte{0xce, 0, 0, 0, 100}, id, []byte{0xdb, 0, 0, 0, 1, 'c'})...),
+		enc(cat([]byte{0x83}, nano, []byte{1}, nano, []byte{0x64}, id, []byte{0xa1, 'b'})...), // duplicate key: the later one counts
+		enc(cat([]byte{0x81, 0xc4, 4, 'N', 'a', 'n', 'o', 0x64})...),                          // key as bin8, Id missing
+		enc(cat([]byte{0x81}, id, []byte{0xa1, 'z'})...),                                      // Nano missing
+		enc(cat([]byte{0x82}, id, []byte{0xc0}, nano, []byte{0xc0})...),                       // both nil
+		enc(cat([]byte{0x81}, nano, []byte{0xcf, 255, 255, 255, 255, 255, 255, 255, 255})...), // uint64 max = int64 -1
+		enc(cat([]byte{0x81}, nano, []byte{0xd1, 0xff, 0x9c})...),                             // int16 -100
+		enc(cat([]byte{0x81}, nano, []byte{0xd2, 0x80, 0, 0, 0})...),                          // int32 min
+		enc(cat([]byte{0x81}, nano, []byte{0xe0})...),                                         // negative fixnum -32
+		enc(cat([]byte{0x82, 0xa1, 'x', 1}, nano, []byte{0x64})...),                           // unknown key (skipped)
+		enc(cat(valid, []byte{0xff, 0xff})...),                                                // trailing bytes
+		enc(valid[:9]...),                                                                     // truncated integer
+		enc(cat([]byte{0x82}, nano, []byte{0xa1, 'x'})...),                                    // a string where the integer belongs
+		enc(cat([]byte{0x81}, id, []byte{0x05})...),                                           // an integer where the string belongs
+		enc(0xdf, 255, 255, 255, 255),                                                         // map32 of 4 billion entries, no bytes
+		enc(0xde, 0),                                                                          // truncated map16 length
+		vs[:10] + "\n" + vs[10:],                                                              // a line break inside the base64 text
+		vs + "=",                                                                              // padding is not accepted
+		vs[:len(vs)-1],                                                                        // last character missing
+	}
+}()
+
 func hostileArgs(r *rng.R, d []edge) argSpec {
 	a := randomArgs(r, d)
 	switch r.Intn(6) {
@@ -916,6 +974,9 @@ func hostileArgs(r *rng.R, d []edge) argSpec {
 	}
 	if r.Chance(1, 3) {
 		a.After = curRaw(rng.Pick(r, hostileCursors))
+	}
+	if r.Chance(1, 3) {
+		a.Before = curRaw(rng.Pick(r, craftedCursors))
 	}
 	return a
 }
@@ -1124,6 +1185,23 @@ func main() {
 						})
 					})
 				}
+			}
+		}
+
+		// H. every crafted cursor document as after and as before cursor
+		for _, c := range craftedCursors {
+			for _, asAfter := range []bool{true, false} {
+				c, asAfter := c, asAfter
+				h.Case(func(r *rng.R) sexp.Node {
+					e := randomEnv(r, run, shuffled(r, d0))
+					a := argSpec{First: intp(10), Info: true}
+					if asAfter {
+						a.After = curRaw(c)
+					} else {
+						a.Last, a.First, a.Before = intp(10), nil, curRaw(c)
+					}
+					return e.single(a, randomPres(r))
+				})
 			}
 		}
 
